@@ -123,7 +123,8 @@ pub fn check_c12(check: &str, category: &str, f: &Findings, st: &mut Stats) -> V
             if multi {
                 st.nontrivial(&(category, format!("{:?}", f)));
             }
-            if parsed.total_optimizations != Some(entries) {
+            // a part without entries may omit its overview altogether
+            if parsed.total_optimizations != Some(entries) && !(entries == 0 && parsed.total_optimizations.is_none()) {
                 out.push(Violation::new(check, "optimizations:total", format!("overview prints total {:?}, the part lists {} entries", parsed.total_optimizations, entries), case.clone()));
             }
         }
@@ -137,7 +138,7 @@ pub fn check_c12(check: &str, category: &str, f: &Findings, st: &mut Stats) -> V
                 names.sort();
                 names.join("+")
             });
-            if parsed.total_vulnerabilities != Some(entries) {
+            if parsed.total_vulnerabilities != Some(entries) && !(entries == 0 && parsed.total_vulnerabilities.is_none()) {
                 out.push(Violation::new(check, "vulnerabilities:total", format!("overview prints total {:?}, the part lists {} entries", parsed.total_vulnerabilities, entries), case.clone()));
             }
             for s in ["High", "Medium", "Low"] {
